@@ -36,8 +36,8 @@ def domain(tier, raw_weight=3, jinja_profile=None, maxsize=None, adversarial_jin
     raw = [gens.corpus_case(maxsize=maxsize), gens.corpus_case(maxsize=maxsize, mutate=True), gens.text_case()]
     jprofiles = ["realistic", "adversarial"] if adversarial_jinja else ["realistic"]
     templ = [
-        gens.jinja_case(profile=jinja_profile) if jinja_profile else st.sampled_from(jprofiles).flatmap(
-            lambda p: gens.jinja_case(profile=p)),
+        gens.jinja_case(profile=jinja_profile, uniform=True) if jinja_profile else st.sampled_from(jprofiles).flatmap(
+            lambda p: gens.jinja_case(profile=p, uniform=True)),
         gens.pyfmt_case(),
         gens.placeholder_case(),
     ]
